@@ -146,6 +146,7 @@ struct GenOpts {
     int maxAll = 6;             // tokens of an ALL-size item
     int maxRecs = 3;            // records of an open-ended keyword
     bool allowAllDefaultRecord = true;
+    bool allowTrailingDefaultInArray = true;   // last element(s) of an ALL-size item defaulted
 };
 
 inline Tok genValue(const ParserItem& it, Rng& rng, const GenOpts& g) {
@@ -199,6 +200,9 @@ inline Rec genRecord(const ParserRecord& prec, Rng& rng, const GenOpts& g, bool 
             else r.toks.push_back(genValue(it, rng, g));
         }
         if (it.parseRaw()) { r.toks.back().mergeable = false; r.freeText = true; }
+    }
+    if (!g.allowTrailingDefaultInArray && afterAll && !r.toks.empty() && r.toks.back().isDefault) {
+        for (const auto& it : prec) if (it.sizeType() == ParserItem::item_size::ALL) { Tok v = genValue(it, rng, g); v.single = false; r.toks.back() = v; break; }
     }
     if (!g.allowAllDefaultRecord) {
         bool allDef = !r.toks.empty();
